@@ -64,42 +64,67 @@ Example C01vm_nonvacuous :
   den cnat q [] v = ([VArr [VNum 3; VNum 1; VNum 4; VNum 1]], Some (XErr (EVal v))).
 Proof. vm_compute. split; reflexivity. Qed.
 
-(* ---- step 1 of the extension (coq/c01vm2): operands that need closures ----
-   Fragment F1 = F with the operands of binary operators arbitrary queries of F1 ($x + 1, nested
-   expressions, generators in operands: (1,2) + (10,20)).  compileCallInternal compiles an operand either
-   inline (empty body: load v; a single instruction that owns no variable: push c / load v; X) or as a function
-   definition (jump over it; opscope id nvars 0; body; opret) called through  load v; pushpc; callpc.
+(* ---- the extension (coq/c01vm2): closures, user-defined functions, recursion ----
+   Fragment F2 = F with
+     - arbitrary queries of F2 as operands of the binary operators ($x + 1, nested expressions, generators in
+       operands: (1,2) + (10,20)).  compileCallInternal compiles an operand inline (empty body: load v; a single
+       instruction that owns no variable: push c / load v; X, X possibly a call of a user function) or as a
+       function definition (jump over it; opscope id nvars 0; body; opret) called through load v; pushpc; callpc;
+     - definitions and calls of parameterless functions, `def f: body; rest`, recursion included; a function body
+       sees the variables and functions visible at its definition (lexical scoping: later rebinding of a name does
+       not affect it) but, in this model, no label around the definition.
    The VM (c01vm2/VM.v) has scope frames {id, offset, pc, saveindex, outerindex}, env.index walking the outer
    chain, opscope/opret with popscope's `free` test (stated at list level with a ghost push counter, see the
-   header of VM.v; coq/vm/StackProofs.v Stack_refines is the array-level refinement), env.offset and the
-   growth of env.values, oppushpc / opcallpc with Next's locals (callpc, index).
-   The denotation enumerates the right operand in the outer loop, as the real code does.
-   Statement: as C01vm_compile_raw_correct, for the code before the peephole pass. *)
-Theorem C01vm_closures_compile_raw_correct :
+   header of VM.v; coq/vm/StackProofs.v Stack_refines is the array-level refinement), env.offset and the growth
+   of env.values, oppushpc / opcallpc / opcall pc / opcallrec with Next's locals (callpc, index).
+   The denotation (c01vm2/Den.v) is a total function of a fuel: every call of a user-defined function costs one
+   unit, running out of fuel is the uncatchable ending XFuel; the right operand of an operator is enumerated in the
+   outer loop, as the real code does.
+   Statement: for every fuel on which the denotation terminates (does not end with XFuel) the machine, run on the
+   code before optimizeTailRec and optimizeCodeOps, terminates with the same observation: [run_is r o] is
+   o = (outputs of r, End | Error e) according to the ending of r, and True when r ended with XFuel. *)
+Theorem C01vm_functions_compile_raw_correct :
   forall (nt : c01vm2.Code.natives) (q : c01vm2.Syntax.query) (code : list c01vm2.Code.instr),
   c01vm2.Compile.compile_raw q = Some code ->
-  forall v : c01vm2.Syntax.jv, exists fuel : nat,
-    c01vm2.Correct.run_is (c01vm2.Den.den nt q [] v) (c01vm2.VM.run nt code fuel (c01vm2.VM.init code v)).
+  forall (fu : nat) (v : c01vm2.Syntax.jv), exists fuel : nat,
+    c01vm2.Correct.run_is (c01vm2.Den.den nt fu q [] v) (c01vm2.VM.run nt code fuel (c01vm2.VM.init code v)).
 Proof. exact c01vm2.Correct.compile_raw_correct. Qed.
-Print Assumptions C01vm_closures_compile_raw_correct.
+Print Assumptions C01vm_functions_compile_raw_correct.
 
-(* the per-construct statement in the frame model: for every scope chain whose top frame has the scope id the
-   query is compiled in, every code position, stack, pending forks, offset and store *)
-Corollary C01vm_closures_segment_correct : forall nt code q, c01vm2.Lemmas.Impl nt code q.
-Proof. exact c01vm2.Correct.impl_all. Qed.
+(* the reading for a terminating denotation *)
+Corollary C01vm_functions_terminating :
+  forall nt q code, c01vm2.Compile.compile_raw q = Some code ->
+  forall fu v outs, c01vm2.Den.den nt fu q [] v = (outs, None) ->
+  exists fuel, c01vm2.VM.run nt code fuel (c01vm2.VM.init code v) = (outs, c01vm2.VM.End).
+Proof.
+  intros nt q code Hc fu v outs Hd. destruct (c01vm2.Correct.compile_raw_correct nt q code Hc fu v) as (f & Hf).
+  exists f. unfold c01vm2.Correct.run_is in Hf. rewrite Hd in Hf. exact Hf.
+Qed.
 
-(* non-vacuity: generators in both operands and a nested operand that needs a frame with a variable:
-   ((1,2) + (10,20)) , ((. + 1) + 100)  on 5  gives 11 12 21 22 106 (the right operand in the outer loop) *)
-Example C01vm_closures_nonvacuous :
+(* the per-construct statement in the frame model: for every fuel, every scope chain whose top frame is an
+   activation of the scope the query is compiled in, every code position, stack, pending forks, offset and store *)
+Corollary C01vm_functions_segment_correct : forall nt code fu q, c01vm2.Lemmas.Impl nt code fu q.
+Proof. exact c01vm2.Correct.impl_all_fu. Qed.
+
+(* non-vacuity: generators in both operands, a nested operand that needs a frame with a variable, a recursive
+   function capturing a variable that is rebound before the call:
+   ((1,2) + (10,20)) , ((. + 1) + 100) , (3 as $x | def f: if . < $x then (. + 1 | f) else . end; 9 as $x | f)
+   on 1  gives 11 12 21 22 102 3 *)
+Example C01vm_functions_nonvacuous :
+  let num z := c01vm2.Syntax.QConst (c01vm2.Syntax.VNum z) in
+  let add := c01vm2.Syntax.QBinop c01vm2.Syntax.OAdd in
   let q := c01vm2.Syntax.QComma
-             (c01vm2.Syntax.QBinop c01vm2.Syntax.OAdd
-                (c01vm2.Syntax.QComma (c01vm2.Syntax.QConst (c01vm2.Syntax.VNum 1)) (c01vm2.Syntax.QConst (c01vm2.Syntax.VNum 2)))
-                (c01vm2.Syntax.QComma (c01vm2.Syntax.QConst (c01vm2.Syntax.VNum 10)) (c01vm2.Syntax.QConst (c01vm2.Syntax.VNum 20))))
-             (c01vm2.Syntax.QBinop c01vm2.Syntax.OAdd
-                (c01vm2.Syntax.QBinop c01vm2.Syntax.OAdd c01vm2.Syntax.QId (c01vm2.Syntax.QConst (c01vm2.Syntax.VNum 1)))
-                (c01vm2.Syntax.QConst (c01vm2.Syntax.VNum 100))) in
-  let v := c01vm2.Syntax.VNum 5 in
-  option_map (fun c => fst (c01vm2.VM.run c01vm2.Natives.cnat c 400 (c01vm2.VM.init c v))) (c01vm2.Compile.compile_raw q)
-    = Some (map c01vm2.Syntax.VNum [11; 12; 21; 22; 106])%Z /\
-  fst (c01vm2.Den.den c01vm2.Natives.cnat q [] v) = map c01vm2.Syntax.VNum [11; 12; 21; 22; 106]%Z.
+             (add (c01vm2.Syntax.QComma (num 1%Z) (num 2%Z)) (c01vm2.Syntax.QComma (num 10%Z) (num 20%Z)))
+             (c01vm2.Syntax.QComma
+                (add (add c01vm2.Syntax.QId (num 1%Z)) (num 100%Z))
+                (c01vm2.Syntax.QBind (num 3%Z) 0%N
+                   (c01vm2.Syntax.QDef 7%N []
+                      (c01vm2.Syntax.QIf (c01vm2.Syntax.QBinop c01vm2.Syntax.OLt c01vm2.Syntax.QId (c01vm2.Syntax.QVar 0%N))
+                         (c01vm2.Syntax.QPipe (add c01vm2.Syntax.QId (num 1%Z)) (c01vm2.Syntax.QCallF 7%N []))
+                         c01vm2.Syntax.QId)
+                      (c01vm2.Syntax.QBind (num 9%Z) 0%N (c01vm2.Syntax.QCallF 7%N []))))) in
+  let v := c01vm2.Syntax.VNum 1 in
+  option_map (fun c => fst (c01vm2.VM.run c01vm2.Natives.cnat c 2000 (c01vm2.VM.init c v))) (c01vm2.Compile.compile_raw q)
+    = Some (map c01vm2.Syntax.VNum [11; 12; 21; 22; 102; 3])%Z /\
+  c01vm2.Den.den c01vm2.Natives.cnat 10 q [] v = (map c01vm2.Syntax.VNum [11; 12; 21; 22; 102; 3]%Z, None).
 Proof. vm_compute. split; reflexivity. Qed.
